@@ -6,7 +6,7 @@
 //! plemma: C12 lemma_monitor_tlv_records_carry_the_same_fields_on_both_sides: write_chanmon_internal / ChannelMonitor read
 //! plemma: C12 lemma_scorer_tlv_records_carry_the_same_fields_on_both_sides: ChannelLiquidity write / read
 //! plemma: C12 lemma_claimable_htlc_tlv_records_carry_the_same_fields_on_both_sides: write_claimable_htlc / (ClaimableHTLC, u64)::read: the part's previous hop, sender-intended value, total received, expiry, keysend preimage and skimmed fee travel under the same record type on both sides (the received value and the payment total are read under other names and are not in the table)
-//! plemma: C12 lemma_manager_tlv_records_carry_the_same_fields_on_both_sides: ChannelManager::write / ChannelManagerData::read (10 of 18 records)
+//! plemma: C12 lemma_manager_tlv_records_carry_the_same_fields_on_both_sides: ChannelManager::write / ChannelManagerData::read (16 of 18 records; six of them under names that differ on the two sides - the reader's `pending_intercepted_htlcs_legacy`, `received_network_pubkey`, `claimable_htlc_purposes`, `amountless_claimable_htlc_onion_fields`, `decode_update_add_htlcs_legacy`, `best_block_previous_blocks` and the writer's `decode_update_add_htlcs_opt` are listed under one canonical name each by `alias=`; records 8 and 21 are written from computed expressions and are not in the table)
 //! trusted: assume_specification for core::cmp::max / core::cmp::min (std definitions): present in every unit so that a change that introduces them is verified instead of being rejected by the tool
 use vstd::prelude::*;
 verus! {
@@ -46,14 +46,18 @@ pub proof fn lemma_monitor_tlv_records_carry_the_same_fields_on_both_sides() ens
 //@end
 pub proof fn lemma_scorer_tlv_records_carry_the_same_fields_on_both_sides() ensures scorer_tlvs_written() =~= scorer_tlvs_read() {}
 //@extract lightning/src/ln/channelmanager.rs :: impl Writeable for ChannelManager :: fn write
-//@fields tlvwrite manager_tlvs_written only=1:pending_outbound_payments_no_retry,3:pending_outbound_payments,4:pending_claiming_payments,6:monitor_update_blocked_actions_per_peer,7:fake_scid_rand_bytes,10:legacy_in_flight_monitor_updates,11:probing_cookie_secret,15:inbound_payment_id_secret,17:in_flight_monitor_updates,19:peer_storage_dir
+//@fields tlvwrite manager_tlvs_written only=1:pending_outbound_payments_no_retry,3:pending_outbound_payments,4:pending_claiming_payments,6:monitor_update_blocked_actions_per_peer,7:fake_scid_rand_bytes,10:legacy_in_flight_monitor_updates,11:probing_cookie_secret,15:inbound_payment_id_secret,17:in_flight_monitor_updates,19:peer_storage_dir,2:pending_intercepted_htlcs,5:our_network_pubkey,9:htlc_purposes,13:htlc_onion_fields,14:decode_update_add_htlcs,23:previous_blocks alias=14:decode_update_add_htlcs_opt>14:decode_update_add_htlcs,23:best_block.read().unwrap().previous_blocks>23:previous_blocks
+//@mutant held_update_adds_written_under_the_intercepted_htlcs_record
+    (2, pending_intercepted_htlcs, option),
+//@with
+    (2, decode_update_add_htlcs_opt, option),
 //@mutant legacy_in_flight_updates_written_under_the_type_of_the_current_ones
     (17, in_flight_monitor_updates, option),
 //@with
     (17, legacy_in_flight_monitor_updates, option),
 //@end
 //@extract lightning/src/ln/channelmanager.rs :: impl ReadableArgs<ChannelManagerDataReadArgs<'a, ES, SP, L>> for ChannelManagerData<SP> :: fn read
-//@fields tlvread manager_tlvs_read only=1:pending_outbound_payments_no_retry,3:pending_outbound_payments,4:pending_claiming_payments,6:monitor_update_blocked_actions_per_peer,7:fake_scid_rand_bytes,10:legacy_in_flight_monitor_updates,11:probing_cookie_secret,15:inbound_payment_id_secret,17:in_flight_monitor_updates,19:peer_storage_dir
+//@fields tlvread manager_tlvs_read only=1:pending_outbound_payments_no_retry,3:pending_outbound_payments,4:pending_claiming_payments,6:monitor_update_blocked_actions_per_peer,7:fake_scid_rand_bytes,10:legacy_in_flight_monitor_updates,11:probing_cookie_secret,15:inbound_payment_id_secret,17:in_flight_monitor_updates,19:peer_storage_dir,2:pending_intercepted_htlcs,5:our_network_pubkey,9:htlc_purposes,13:htlc_onion_fields,14:decode_update_add_htlcs,23:previous_blocks alias=2:pending_intercepted_htlcs_legacy>2:pending_intercepted_htlcs,5:received_network_pubkey>5:our_network_pubkey,9:claimable_htlc_purposes>9:htlc_purposes,13:amountless_claimable_htlc_onion_fields>13:htlc_onion_fields,14:decode_update_add_htlcs_legacy>14:decode_update_add_htlcs,23:best_block_previous_blocks>23:previous_blocks
 //@end
 pub proof fn lemma_manager_tlv_records_carry_the_same_fields_on_both_sides() ensures manager_tlvs_written() =~= manager_tlvs_read() {}
 //@extract lightning/src/ln/channelmanager.rs :: fn write_claimable_htlc
